@@ -176,6 +176,18 @@ def bounded_subfields(reg, tier, seed):
                     if p3 != p2:
                         fail(f"subfield/bytes/{name}", f"{name}: payload the serializer produced itself ({_h(p2)}) re-encodes to {_h(p3)}",
                              {"field": name, "payload": _h(p), "ctx": {k: str(v) for k, v in cv.items()}, "pod": pod})
+                    elif isinstance(p2, (bytes, bytearray)):
+                        # ... and in the other form too: what the serializer produced from a plain-data value survives a pass through
+                        # the object form byte for byte, and the other way round
+                        try:
+                            d_o = ser.deserialize(bb, p2, pod=not pod)
+                            d_o = getattr(d_o, "__wrapped__", d_o)
+                            p4 = ser.serialize(bb, d_o) if d_o is not se.UNSERIALIZABLE else p2
+                        except Exception:  # noqa
+                            p4 = None        # the other form does not accept it (the forms may differ in what they accept): nothing is claimed
+                        if p4 is not None and p4 != p2:
+                            fail(f"subfield/bytes/{name}", f"{name}: payload produced in the {'plain-data' if pod else 'object'} form ({_h(p2)[:100]}) comes back "
+                                 f"from the other form as {_h(p4)[:100]}", {"field": name, "payload": _h(p2), "pod": pod})
                     if isinstance(p, int) and isinstance(p2, int) and p2 != p:
                         k_ = f"subfield/date-precision/{name}" if ("Date" in var and p > 2 ** 53 and abs(p2 - p) < 4096) else f"subfield/bytes/{name}"
                         fail(k_, f"{name}: integer {p} decodes to {d!r} and re-encodes to {p2}",
